@@ -110,6 +110,8 @@ Mult2   == {2}
 Mult13  == {1, 3}
 Mult123 == {1, 2, 3}
 Rings1  == {RingT(1, "d")}
+Nodes1  == {NodeT("A", <<>>)}
+NoSym   == {}
 SymOne  == {"="}
 SymAll  == Symbols
 EQ2(k, v) == [k |-> k, v |-> v, eq |-> 2]
